@@ -140,6 +140,8 @@ def configs(quick):
     keep2 = [(False, False, 0), (True, True, 2), (True, False, 1), (False, True, 3), (True, True, 4)]
     for c in out:
         if c["kind"] == "ns2d" and (c["forcing"], c["free_stream"], c["width"]) in keep2:
+            if c["width"] == 1:
+                c = dict(c, shape=(7, 6))  # one grid that is taller than wide
             sel.append(c)
     keep3 = [
         (False, False, None, "greens_function_convolution", 2), (True, True, ("multiplicative", 2), "greens_function_convolution", 1), (True, False, ("convolution", 1), "fast_diagonalisation", 0),
